@@ -23,7 +23,7 @@ RULE = (
     "through a fresh connection. Non-trivial = some write follows a >= 11 s pause while 1..49 writes are pending (the count threshold cannot explain the flush)."
 )
 ASSUMPTIONS = [
-    "the store reads time through the name `datetime` of its module (asserted: the fake clock must be read at least once per write, otherwise the run is inconclusive, exit 2); the real-time phase does not depend on this",
+    "the store reads time through the name `datetime` of its module (if a demanded flush is missing and the fake clock was never read at all, the run is inconclusive, exit 2, not a violation); the real-time phase does not depend on this",
     "crash = process death; what a second connection sees is what survives",
 ]
 ADV = [0, 0, 0.5, 3, 9, 11, 12, 60, 3600, 86400]
@@ -92,13 +92,14 @@ class Oracle:
         t = self.clock.t
         if kind in crash.SINGLE or kind == "bulk":
             self.flags["writes"] += 1
-            if self.clock.calls == self.calls_before:
-                raise Inconclusive("the SQLite store did not read the (fake) clock during an event write; the fake-clock tier cannot decide")
             age = t - self.f_before
             if age >= 11:
                 self.flags["age_flush_demanded"] += 1
                 if 0 < self.pending_writes < 49:
                     self.flags["age_flush_demanded_with_few_pending"] += 1
+                if not durable and self.clock.calls == 0:
+                    # the store never asked our clock for the time: it must be using another clock source, which this tier cannot drive
+                    raise Inconclusive("the SQLite store never read the (fake) clock; the fake-clock tier cannot decide (the real-time phase of the thorough tier still does)")
                 if not durable:
                     raise Violation(
                         f"sqlite: write {i} {json.dumps(op)} was issued {age:.1f} s after the previous flush but is not durable when it returns "
